@@ -267,6 +267,9 @@ func plans(id, tier string) (Plan, bool) {
 		jobs = append(jobs, Job{Pkg: pkgSC, Harness: "c14_sched", Instr: "v1", Params: fmt.Sprintf("scenario=13;policy=delay;budget=%d", pick(2, 3)), Shards: pick(2, 8)})
 		jobs = append(jobs, Job{Pkg: pkgSC, Harness: "c14_sched", Instr: "v1", Params: fmt.Sprintf("scenario=14;policy=delay;budget=%d", pick(1, 2)), Shards: pick(2, 8)})
 		jobs = append(jobs, Job{Pkg: pkgSC, Harness: "c14_sched", Instr: "v1", Params: fmt.Sprintf("scenario=0;reprobe=yes;policy=delay;budget=%d", pick(2, 3)), Shards: pick(2, 8)})
+		// values that are not valid UTF-8
+		jobs = append(jobs, Job{Pkg: pkgSC, Harness: "c14_sched", Instr: "v1", Params: fmt.Sprintf("scenario=15;policy=delay;budget=%d", pick(2, 4)), Shards: pick(2, 8)})
+		jobs = append(jobs, Job{Pkg: pkgSC, Harness: "c14_sched", Instr: "v1", Params: fmt.Sprintf("scenario=16;policy=delay;budget=%d", pick(2, 3)), Shards: pick(2, 8)})
 		// more than a megabyte of registered text (2 values of 540 KB), small queries
 		jobs = append(jobs, Job{Pkg: pkgSC, Harness: "c14_sched", Instr: "v1", Params: fmt.Sprintf("scenario=0;values=2;valuebytes=540000;policy=delay;budget=%d", pick(1, 1)), Shards: pick(8, 16)})
 		jobs = append(jobs, Job{Pkg: pkgExtV1, Harness: "c14_license_sched", Instr: "v1", Shards: pick(4, 16)})
@@ -292,6 +295,11 @@ func plans(id, tier string) (Plan, bool) {
 			{Pkg: pkgTok, Harness: "c17_longwords", Shards: pick(4, 12)},
 			{Pkg: pkgSS, Harness: "c17_candidates", Shards: 16},
 			{Pkg: pkgSS, Harness: "c17_candidates", Params: "alphabet=ab", Shards: 16},
+			// other granularities (window sizes) than the default 3: steps of more than one token
+			{Pkg: pkgSS, Harness: "c17_candidates", Params: "granularity=4", Shards: 16},
+			{Pkg: pkgSS, Harness: "c17_candidates", Params: "granularity=5", Shards: 16},
+			{Pkg: pkgSS, Harness: "c17_candidates", Params: "granularity=2", Shards: 8},
+			{Pkg: pkgSS, Harness: "c17_candidates", Params: "granularity=8;alphabet=ab", Shards: 16},
 			{Pkg: pkgSS, Harness: "c17_large", Shards: 16},
 		}}, true
 	case "C18":
@@ -301,6 +309,7 @@ func plans(id, tier string) (Plan, bool) {
 			{Pkg: pkgCP, Harness: "c18_chunks", Shards: pick(2, 8), MaxProcs: 2},
 			{Pkg: pkgCP, Harness: "c18_long", Shards: 8, MaxProcs: 2},
 			{Pkg: pkgCP, Harness: "c18_lines", Shards: 9, MaxProcs: 2},
+			{Pkg: pkgCP, Harness: "c18_history", Shards: 2},
 		}}, true
 	case "C19":
 		var jobs []Job
@@ -338,6 +347,7 @@ func plans(id, tier string) (Plan, bool) {
 		return Plan{Level: "model_checking", Jobs: []Job{
 			{Pkg: pkgSets, Harness: "c20_stringset", Params: "observe=path", Shards: pick(4, 8)},
 			{Pkg: pkgSets, Harness: "c20_stringset", Params: "observe=end", Shards: pick(4, 8)},
+			{Pkg: pkgSets, Harness: "c20_stringset", Params: "observe=path;universe=wide", Shards: pick(4, 8)},
 			{Pkg: pkgIntSets, Harness: "c20_intset", Params: "observe=path", Shards: pick(4, 8)},
 			{Pkg: pkgIntSets, Harness: "c20_intset", Params: "observe=end", Shards: pick(4, 8)},
 			{Pkg: pkgIntSets, Harness: "c20_intset", Params: "observe=path;universe=wide", Shards: pick(4, 8)},
